@@ -46,7 +46,7 @@ def cases(tier, seed):
     for s, m in ([('ring4', 1), ('sc5', 1), ('sc5b', 1)] if q else [(s, m) for s in ('ring4', 'sc5', 'sc5b', 'ring4_chord') for m in (1, 2)]):
         add(fn='randmio_dir_connected', kind='conn', n=4, sup=s, support=c01.dir_from_arcs(4, c01.D4[s]), iters=m, weight=10 * m, shard_depth=8 if m > 1 else None)
     for p in c01._perms(4, seed, 2 if q else 8):
-        extra = dict(draws=1 + 3 * 4, fork_int=True, shard_depth=24) if q else dict(fork_int=True, shard_depth=24)
+        extra = dict(draws=1 + 4 * 4, fork_int=True, shard_depth=24) if q else dict(fork_int=True, shard_depth=24)
         add(fn='latmio_und_connected', kind='conn_lat', n=4, sup='P4', support=c01.und_from_edges(4, c01.U4['P4']), iters=1, perm=p, weight=100,
             name='latmio_und_connected/conn/P4/perm' + ''.join(map(str, p)), **extra)
     if not q:
@@ -69,7 +69,7 @@ def cases(tier, seed):
                     name='%s/cost/%s/%s/perm%s' % (fn, s, dk, ''.join(map(str, p))))
     # mask
     for s, ms in ([('2K2', 1), ('2K2', 2), ('P4', 1)] if q else [(s, ms) for s in ('2K2', 'P4', 'C4', 'paw') for ms in (1, 2)]):
-        add(fn='randomize_graph_partial_und', kind='mask', n=4, sup=s, support=c01.und_from_edges(4, c01.U4[s]), iters=ms, draws=3 * ms, weight=5 * 4 ** ms,
+        add(fn='randomize_graph_partial_und', kind='mask', n=4, sup=s, support=c01.und_from_edges(4, c01.U4[s]), iters=ms, draws=3 * ms + 2, weight=5 * 4 ** ms,
             shard_depth=8 if ms >= 2 else None)
     return cs
 
